@@ -112,7 +112,8 @@ def one(ctx, i, tmpdir):
     evalmode = i % 7 == 3
     # (the two-copies-of-one-module cases, i % 6 == 4, would otherwise always carry a template)
     wrap_on = (i % 3 == 1 and i % 6 != 4) or (i % 6 == 4 and (i // 6) % 2 == 0)
-    wrap = "Optional[Union[{output_param}, str]]" if (wrap_on and not evalmode) else None
+    # templates: an ordinary one, the identity (over a quoted forward reference the result is one bare string), a quoted one
+    wrap = ("Optional[Union[{output_param}, str]]", "{output_param}", '"Optional[{output_param}]"')[(i // 3) % 3] if (wrap_on and not evalmode) else None
     eval_values = {}
     if evalmode:
         vals = tuple(sorted("{}_zq{}".format(c, (i // 7) % 5) for c in "bac"))
